@@ -182,7 +182,7 @@ fn main() {
         let a = random_ibig(&mut rng, args.max_words);
         let b = match rng.below(10) {
             0 => a.clone(),                    // square shortcut, cancellation
-            1 => -a.clone(),
+            1 => guarded_or(a.clone(), || -a.clone()),
             2 => random_ibig(&mut rng, 2),     // unbalanced
             _ => random_ibig(&mut rng, args.max_words),
         };
